@@ -12,6 +12,10 @@ from . import oblig, paths
 
 
 def main(argv=None):
+    wd = os.environ.get("PYVC_WATCHDOG")
+    if wd:
+        import faulthandler
+        faulthandler.dump_traceback_later(int(wd), exit=True)
     ap = argparse.ArgumentParser()
     ap.add_argument("pid")
     ap.add_argument("--tier", default=os.environ.get("VERIF_TIER", "quick"), choices=["quick", "thorough"])
